@@ -571,7 +571,7 @@ Proof.
     (match goal with |- sets_all ?t1 t2 = _ => destruct (ty_eqb (type_of t1) (type_of t2)) eqn:T end;
      [|destruct t2; cbn [sets_all] in *; rewrite T; reflexivity]);
     pose proof T as T'; apply ty_eqb_true in T'; destruct t2; try discriminate T'; try (destruct a; discriminate T').
-  - reflexivity.
+  - cbn [sets_all]. destruct (negb _); reflexivity.
   - rewrite sets_all_list. cbn [set_members] in I1, I2. clear T T'. revert xs0 I2.
     induction IH as [|x xs Hx _ IHl]; intros ys I2; [reflexivity|].
     destruct ys as [|y ys]; [reflexivity|]. cbn [all_zip]. cbn [flat_map] in I1, I2.
